@@ -71,6 +71,12 @@ def disconnected_exit(ctx, kind, result):
     if kind != "return":
         return
     B = z3.BoolVal
+    known = ctx.spec_bool("old(has_key(self._engine_data_map, engine_id))")
+    eng = ctx.ghost.get("store_recent_engine", [])
+    # the recent-engine row is what a later re-registration restores the run from: it must be rewritten at EVERY disconnect of a
+    # known engine (run id if a run is active, None otherwise), otherwise a finished run can be restored and stored twice
+    ctx.check("recent-engine-row-rewritten-at-every-disconnect-of-a-known-engine", z3.Implies(known, B(len(eng) == 1)), "postcondition")
+    ctx.check("unknown-engine-stores-nothing", z3.Implies(z3.Not(known), B(len(eng) == 0)), "postcondition")
     ctx.check("disconnect-creates-no-plot-log-and-stores-no-recent-run",
               B(len(ctx.ghost.get("create_plot_log", [])) == 0 and len(ctx.ghost.get("store_recent_run", [])) == 0), "postcondition")
 
